@@ -1,0 +1,22 @@
+//go:build verif
+
+package olla
+
+import (
+	"sync/atomic"
+	"time"
+)
+
+// Verification hooks (build tag "verif" only): simulated time for the engine breaker.
+
+// VerifNewBreaker returns a breaker configured like the ones GetCircuitBreaker creates.
+func VerifNewBreaker() *circuitBreaker {
+	return &circuitBreaker{threshold: circuitBreakerThreshold}
+}
+
+// VerifShift makes the stored last-failure time look d older.
+func (cb *circuitBreaker) VerifShift(d time.Duration) {
+	if v := atomic.LoadInt64(&cb.lastFailure); v != 0 {
+		atomic.StoreInt64(&cb.lastFailure, v-int64(d))
+	}
+}
